@@ -224,6 +224,12 @@ impl<'a> AnyCache<'a> {
     pub(crate) fn reload_untyped(self, id: SharedString, typ: Type) -> Option<Dependencies> {
         let handle = self.get_cached_untyped(&id, typ)?;
 
+        // The entry may have been replaced by a value that is not reloadable
+        // (eg added with `get_or_insert` after the asset was removed).
+        if !handle.is_hot_reloaded() {
+            return None;
+        }
+
         let load_asset = || (typ.inner.load)(self, id);
         let (entry, deps) = if let Some(reloader) = self.reloader() {
             records::record(reloader, load_asset)
@@ -402,7 +408,9 @@ pub(crate) trait CacheExt: Cache {
     #[cold]
     fn add_any<T: Storable>(&self, id: &str, asset: T) -> &UntypedHandle {
         let id = SharedString::from(id);
-        let entry = CacheEntry::new(asset, id, || self._has_reloader());
+        // Assets added this way are never reloaded, so the entry does not need
+        // to (and must not) be writable by the hot-reloading subsystem.
+        let entry = CacheEntry::new(asset, id, || false);
 
         self.insert(entry)
     }
